@@ -7,6 +7,8 @@ import (
 	"encoding/json"
 	"fmt"
 	"os"
+	"runtime/debug"
+	"runtime/pprof"
 	"strconv"
 
 	"verif/harness/mon"
@@ -15,6 +17,14 @@ import (
 func main() {
 	if len(os.Args) < 2 {
 		usage()
+	}
+	// The workloads allocate heavily on a small live heap (the library builds
+	// an error value with a stack trace for every token it offers to a lower
+	// level); with the default GOGC that means thousands of GC cycles per
+	// second and poor scaling.  Collect on a memory budget instead.
+	if os.Getenv("GOGC") == "" && os.Getenv("GOMEMLIMIT") == "" {
+		debug.SetGCPercent(-1)
+		debug.SetMemoryLimit(4 << 30)
 	}
 	seed := int64(1)
 	if s := os.Getenv("VERIF_SEED"); s != "" {
@@ -45,6 +55,14 @@ func main() {
 			usage()
 		}
 		r := mon.NewRun(m.ID, tier, seed, dir)
+		if pf := os.Getenv("VERIF_PPROF"); pf != "" {
+			f, _ := os.Create(pf)
+			pprof.StartCPUProfile(f)
+			rc := m.Run(r)
+			pprof.StopCPUProfile()
+			f.Close()
+			os.Exit(rc)
+		}
 		os.Exit(m.Run(r))
 	case "replay":
 		if len(os.Args) < 4 {
